@@ -98,6 +98,12 @@ def as_time(t = None):
     else:
         raise ValueError('cannot parse time %s'%t)
 
+def _rrule(freq, interval, dtstart, until):
+    """rrule drops the microseconds of dtstart: we take them off and put them back so that the range does start at dtstart"""
+    us = datetime.timedelta(microseconds = dtstart.microsecond)
+    res = rrule(freq, interval = interval, dtstart = dtstart - us, until = until - us)
+    return [t + us for t in res] if us else list(res)
+
 _LY = dict(b = DAILY, d = DAILY, w = WEEKLY, m = MONTHLY, q = MONTHLY, y = YEARLY, h = HOURLY, n = MINUTELY, s = SECONDLY)
 
 def drange(t0 = None, t1 = None, bump = None):
@@ -143,7 +149,7 @@ def drange(t0 = None, t1 = None, bump = None):
         if (t1-t0).days * bump <= 0:
             raise ValueError('cannot go from %s to %s in steps of %s'%(t0,t1,bump))
         freq = DAILY
-        res = list(rrule(freq, interval = 1, dtstart = min(t0,t1), until = max(t0,t1))) # unfortunately does not actually work for negative bumps
+        res = _rrule(freq, interval = 1, dtstart = min(t0,t1), until = max(t0,t1)) # unfortunately does not actually work for negative bumps
         res = res[::-1] if bump<0 else res
         res = res[::abs(bump)] if abs(bump)>1 else res
         return res
@@ -176,12 +182,12 @@ def drange(t0 = None, t1 = None, bump = None):
                 raise ValueError('cannot go from %s to %s in steps of %s'%(t0,t1,bump))
             freq = _LY[prd]
             if prd == 'b':
-                res = [t for t in rrule(freq, interval = 1, dtstart = min(t0,t1), until = max(t0,t1)) if t.weekday()<5]
+                res = [t for t in _rrule(freq, interval = 1, dtstart = min(t0,t1), until = max(t0,t1)) if t.weekday()<5]
                 res = res[::-1] if interval<0 else res    
                 res = res[::abs(interval)] if abs(interval)>1 else res
                 return res            
             else:
-                return list(rrule(freq, interval = interval, dtstart = t0, until = t1))
+                return _rrule(freq, interval = interval, dtstart = t0, until = t1)
         else:
             t = t0
             res = []
